@@ -84,6 +84,21 @@ OrderCases(shape) ==
             LET attrs == <<AIs("axes", <<axis>>), AI("keepdims", 0)>> s == SemReduce(op, Xr, attrs) IN
             P(CaseRec("order", op, attrs, <<MapRank(Xr)>>, [s EXCEPT !.value = <<MapRank(s.value[1])>>], <<Tag(s), dt, "extreme_magnitudes">>))
 
+\* the same for integers: MIN < MIN+1 < -1 < 0 < 1 < MAX-1 < MAX of the element type (neighbours at the ends of the 64-bit range are
+\* one apart - an order decided through another number format would take them for equal)
+RankValI(r) == CASE r = -3 -> IMinS [] r = -2 -> Sym(1, 1) [] r = -1 -> Fin(-1) [] r = 0 -> Fin(0) [] r = 1 -> Fin(1) [] r = 2 -> Sym(1, -2) [] r = 3 -> IMaxS
+MapRankI(t) == [t EXCEPT !.data = [k \in 1..Len(t.data) |-> RankValI(t.data[k])]]
+IntOrderCases(shape) ==
+   LET r == Len(shape) IN
+   \A dt \in {"i64", "i32"}, off \in {0, 2, 5} :
+      LET Xr == T(dt, shape, [k \in 1..Size(shape) |-> (((k + off) * 5) % 7) - 3]) IN
+      /\ \A axis \in 0..(r - 1) :
+            LET attrs == <<AI("axis", axis), AI("keepdims", 0)>> s == SemArgMax(Xr, attrs) IN
+            P(CaseRec("order", "ArgMax", attrs, <<MapRankI(Xr)>>, s, <<Tag(s), dt, "extreme_integers">>))
+      /\ \A op \in {"ReduceMax", "ReduceMin"}, axis \in 0..(r - 1) :
+            LET attrs == <<AIs("axes", <<axis>>), AI("keepdims", 0)>> s == SemReduce(op, Xr, attrs) IN
+            P(CaseRec("order", op, attrs, <<MapRankI(Xr)>>, [s EXCEPT !.value = <<MapRankI(s.value[1])>>], <<Tag(s), dt, "extreme_integers">>))
+
 \* tiling law (Outcome.tla): reductions and normalisations along an inner axis treat the rows of the leading axis independently
 TileEmit(op, attrs, X, a, Sem(_), known) ==
    TileLaw(Sem, <<X>>, {1}) => P([CaseRec("tile", op, attrs, <<X>>, a, <<"value", "tile_law">>) EXCEPT !.known = known] @@ [tile |-> TileField({1})])
@@ -137,7 +152,7 @@ Init ==
 Emit ==
    /\ ~st.done
    /\ CASE st.fam = "long" -> LongCases(st.shape) /\ (st.shape[1] = 2 => TileReduceCases)
-        [] st.fam = "argmax" -> ArgMaxCases(st.shape) /\ (Len(st.shape) = 2 => ArgMaxDt(st.shape)) /\ (Len(st.shape) <= 2 /\ st.shape[1] = 2 => ExtremeAxisCases(st.shape)) /\ (Len(st.shape) \in {2, 3} /\ st.shape[1] = 3 => OrderCases(st.shape)) /\ (st.shape = <<2>> => ZeroTieCases)
+        [] st.fam = "argmax" -> ArgMaxCases(st.shape) /\ (Len(st.shape) = 2 => ArgMaxDt(st.shape)) /\ (Len(st.shape) <= 2 /\ st.shape[1] = 2 => ExtremeAxisCases(st.shape)) /\ (Len(st.shape) \in {2, 3} /\ st.shape[1] = 3 => OrderCases(st.shape) /\ IntOrderCases(st.shape)) /\ (st.shape = <<2>> => ZeroTieCases)
         [] st.fam = "reduce" -> ReduceCases(st.op, st.shape) /\ (Len(st.shape) = 2 => ReduceDt(st.op, st.shape))
         [] st.fam = "softmax" -> SoftCases(st.op, st.shape) /\ (st.op = "Softmax" => HugeCases(st.shape))
    /\ st' = [st EXCEPT !.done = TRUE]
